@@ -6,6 +6,7 @@ import (
 	"go/token"
 	"go/types"
 	"reflect"
+	"sort"
 	"strings"
 	"unicode"
 	"unicode/utf8"
@@ -905,6 +906,33 @@ func ruleTagNameValidity(c *Ctx, rule string) {
 	samples := []string{"", "a", "Z9", "naïve", "日本", "٣", "full name", " ", "it's", "a\"b", "a\\b", "a`b", "a,b", "tab\tx", "x¿", "§", "a©", "€", "-", "_x", "a.b", "x\n", " ", "á"}
 	for _, ch := range "!#$%&()*+-./:;<=>?@[]^_{|}~ " {
 		samples = append(samples, "a"+string(ch))
+	}
+	// one or two runes of every Unicode general category (Lu, Ll, ... Nd, Nl, No, ... Zs, Cc, Cf ...): the classes the
+	// standard predicates are made of
+	var cats []string
+	for name := range unicode.Categories {
+		if len(name) == 2 {
+			cats = append(cats, name)
+		}
+	}
+	sort.Strings(cats)
+	for _, name := range cats {
+		t := unicode.Categories[name]
+		var first, last rune = -1, -1
+		if len(t.R16) > 0 {
+			first, last = rune(t.R16[0].Lo), rune(t.R16[len(t.R16)-1].Hi)
+		}
+		if len(t.R32) > 0 {
+			if first < 0 {
+				first = rune(t.R32[0].Lo)
+			}
+			last = rune(t.R32[len(t.R32)-1].Hi)
+		}
+		for _, r := range []rune{first, last} {
+			if r >= 0 && !(r >= 0xD800 && r <= 0xDFFF) {
+				samples = append(samples, "a"+string(r))
+			}
+		}
 	}
 	for p := range preds {
 		var wrong []string
